@@ -56,7 +56,7 @@ abbrev Selection := List (Sys × List Loc)
 /-- `_drm_selection_from_string`.  `none` = the value names an unknown DRM system
 (`assert` in `generate_drm_location_tuples`) or an unknown location (`ValueError` /
 `KeyError`) – outside the modelled domain. -/
-def parseSelection (value : String) : Option Selection :=
+def parseSelectionWith (allLocs : List Loc) (value : String) : Option Selection :=
   let value := value.toLower
   if value.startsWith "none" || value == "" then some []
   else if value.startsWith "all" then
@@ -64,7 +64,7 @@ def parseSelection (value : String) : Option Selection :=
       match ((value.splitOn "-").drop 1).mapM Loc.ofString with
       | some locs => some (Sys.all.map fun s => (s, locs))
       | none => none
-    else some (Sys.all.map fun s => (s, Loc.all))
+    else some (Sys.all.map fun s => (s, allLocs))
   else
     (value.splitOn ",").mapM fun item =>
       if item.contains '-' then
@@ -74,7 +74,11 @@ def parseSelection (value : String) : Option Selection :=
           | some s, some ls => some (s, ls)
           | _, _ => none
         | [] => none
-      else (Sys.ofString item).map fun s => (s, Loc.all)
+      else (Sys.ofString item).map fun s => (s, allLocs)
+
+/-- the parser with the module constant `ALL_DRM_LOCATIONS` as it is at import time
+(`parseSelectionWith` takes the value the shared set has when the request is served) -/
+def parseSelection (value : String) : Option Selection := parseSelectionWith Loc.all value
 
 /-- `DrmContext.__init__`: `manifest_context[drm_name] = …` in selection order, so the
 last entry for a system wins -/
@@ -196,6 +200,58 @@ def generateInit (top : List Box) (extra : List Box) (live : Bool) : List Box :=
 /-- the response body for a request: selection → pssh boxes → edited tree → bytes -/
 def initBytes (top : List Box) (psshs : List PsshSpec) (live : Bool) : Bytes :=
   encodeList (generateInit top (psshs.map PsshSpec.box) live)
+
+/-! ### requests served one after the other by one process
+
+What the handlers share between requests and the model has to account for: the module
+level set `ALL_DRM_LOCATIONS` of `drm_options.py`, which the parser hands out *by reference*
+for every bare DRM name and for `all`.  Every handler reads it; none writes it (the
+`init_history` channel snapshots it, and every other module-level constant of the option
+layer, around every request). -/
+
+/-- process-wide state that outlives a request -/
+structure Shared where
+  allLocs : List Loc
+  deriving DecidableEq, Repr
+
+/-- the state after import -/
+def Shared.init : Shared := ⟨Loc.all⟩
+
+/-- an init-segment request: stored boxes, track properties, query parameters -/
+structure InitReq where
+  top : List Box
+  encrypted : Bool
+  version : Option Nat
+  lastAlgIsAesCtr : Bool
+  drm : String
+  kids : List Bytes
+  pro : Bytes
+  live : Bool
+
+/-- the response to one init request given the shared state (`none`: selection outside the
+modelled parser domain) -/
+def serveInit (s : Shared) (r : InitReq) : Option Bytes :=
+  (parseSelectionWith s.allLocs r.drm).map fun sel =>
+    initBytes r.top (initPsshs r.encrypted r.version r.lastAlgIsAesCtr sel r.kids r.pro) r.live
+
+/-- any request: an init request, or something else (manifest of any mode, media segment,
+licence request …) whose response is not C10's subject -/
+inductive Req
+  | init (r : InitReq)
+  | other
+
+/-- serving one request: the shared state is read, never written -/
+def serve (s : Shared) : Req → Option Bytes × Shared
+  | .init r => (serveInit s r, s)
+  | .other => (none, s)
+
+/-- serving a history -/
+def serveAll (s : Shared) : List Req → List (Option Bytes) × Shared
+  | [] => ([], s)
+  | q :: qs =>
+    let r := serve s q
+    let rest := serveAll r.2 qs
+    (r.1 :: rest.1, rest.2)
 
 /-! ### an independent reader of box sequences (ISO/IEC 14496-12 §4.2) -/
 
